@@ -363,6 +363,60 @@ func runC14(r *rt.Run, tier string) {
 		if o.cerr != nil {
 			r.Violate("C14/close-error", key, "Close: %v", o.cerr)
 		}
+		// accessors on what was loaded: the source-package name, and the member
+		// index entries seen as tar files
+		wantSrc := p.Ctl.Model.Source
+		if wantSrc == "" {
+			wantSrc = p.Ctl.Model.Package
+		}
+		if got := d.Control.SourceName(); got != wantSrc {
+			r.Violate("C14/control-mismatch", "SourceName()", "[%s] SourceName()=%q want %q (Source %q, Package %q)", key, got, wantSrc, p.Ctl.Model.Source, p.Ctl.Model.Package)
+		}
+		if li == 0 && !lz && via == "Load" && !concurrent {
+			for _, m := range p.Members {
+				e := d.ArContent[m.Name]
+				if e == nil {
+					continue
+				}
+				wantTar := m == p.CtlMember || m == p.DataMember
+				if e.IsTarfile() != wantTar {
+					r.Violate("C14/member-index", "IsTarfile/"+map[bool]string{true: "tar-member", false: "other-member"}[wantTar], "[%s] ArContent[%q].IsTarfile()=%v", key, m.Name, e.IsTarfile())
+				}
+				if m != p.CtlMember {
+					continue
+				}
+				// the control member opened again through the index entry lists the control tar
+				var names []string
+				var terr error
+				task := r.Solo("Tarfile", func() {
+					e.Data.Seek(0, io.SeekStart)
+					tr, closer, err := e.Tarfile()
+					if err != nil {
+						terr = err
+						return
+					}
+					fs, err := readDataTar(tr)
+					terr = err
+					for _, f := range fs {
+						names = append(names, f.Name)
+					}
+					if closer != nil {
+						closer.Close()
+					}
+				})
+				if taskTrouble(r, "C14", key+"/Tarfile", task) {
+					return
+				}
+				var want []string
+				for _, f := range p.Ctl.Files {
+					want = append(want, f.Name)
+				}
+				if terr != nil || fmt.Sprint(names) != fmt.Sprint(want) {
+					r.Violate("C14/member-index", "Tarfile/control", "[%s] ArContent[%q].Tarfile() lists %v (err=%v), the control tar holds %v", key, m.Name, names, terr, want)
+				}
+				r.Probe("index-entry-opened-as-tarfile")
+			}
+		}
 		if d.Path != "/pkgs/x.deb" {
 			r.Violate("C14/path", key, "Path=%q", d.Path)
 		}
@@ -386,5 +440,5 @@ func init() {
 		},
 		Assumptions: []string{"kjk/lzma decodes in its own goroutine: for packages with an lzma member the disk runs in quiet mode (no trace events, no EIO) so that the trace stays deterministic", "tar and gzip writers of the Go stdlib and the zstd/lzma encoders of the third-party modules are trusted to produce valid payloads"},
 	})
-	propProbes["C14"] = []string{"xz-dictionary-limit-lowered-then-reset", "xz-member-refused-under-limit", "xz-dictionary-limit-below-need", "earlier-package-closed-twice", "gzip-member-with-several-streams", "fault-on-extra-member", "loads-interleaved", "via-LoadFile", "loaded-repeatedly", "extra-underscore-member"}
+	propProbes["C14"] = []string{"index-entry-opened-as-tarfile", "xz-dictionary-limit-lowered-then-reset", "xz-member-refused-under-limit", "xz-dictionary-limit-below-need", "earlier-package-closed-twice", "gzip-member-with-several-streams", "fault-on-extra-member", "loads-interleaved", "via-LoadFile", "loaded-repeatedly", "extra-underscore-member"}
 }
